@@ -19,6 +19,7 @@ import Gostatix.Model.Cuckoo
 import Gostatix.Model.TopK
 import Gostatix.Model.Codec
 import Gostatix.Model.Redis
+import Gostatix.Model.Equals
 open Gostatix
 
 abbrev P := Except String
@@ -175,6 +176,59 @@ def decCheck {α} (d : Dec α) (sh : α → String) (hex : String) (obs : List S
     | some (a, rest) => s!"ok {bs.length - rest.length} {sh a}"
   pure (verdict (got == " ".intercalate obs) got)
 
+/-! ### Equals (model of Gostatix/Model/Equals.lean): result `1`, `0` or `panic` -/
+
+def showEq : Option Bool → String
+  | some true => "1" | some false => "0" | none => "panic"
+
+def pRBucket (s : String) : P Equals.RBucket := do
+  match s.splitOn ":" with
+  | [sz, _ln, es] => pure ⟨← pNat sz, ← pStrList es⟩
+  | _ => throw s!"rbucket:{s}"
+
+def pCMSOpt (rows cols m : String) : P (Option CMS) := do
+  if rows == "nil" then pure none else pure (some ⟨← pNat rows, ← pNat cols, ← pMatrix m⟩)
+
+def handleEq (toks : List String) : P String := do
+  match toks with
+  | ["eq.bloom.mem", s1, k1, l1, w1, s2, k2, l2, w2, res] =>
+    let a : Equals.BloomMem := ⟨← pNat s1, ← pNat k1, ← pNat l1, ← pNatList w1⟩
+    let b : Equals.BloomMem := ⟨← pNat s2, ← pNat k2, ← pNat l2, ← pNatList w2⟩
+    let r := showEq (a.equals b); pure (verdict (r == res) r)
+  | ["eq.bloom.redis", s1, k1, h1, s2, k2, h2, res] =>
+    let a : Equals.BloomRedis := ⟨← pNat s1, ← pNat k1, some (← pHex h1)⟩
+    let b : Equals.BloomRedis := ⟨← pNat s2, ← pNat k2, some (← pHex h2)⟩
+    let r := showEq (a.equals b); pure (verdict (r == res) r)
+  | ["eq.cuckoo.mem", n1, b1, f1, r1, l1, bk1, n2, b2, f2, r2, l2, bk2, res] =>
+    let a : Equals.CuckooMem := ⟨← pNat n1, ← pNat b1, ← pNat f1, ← pNat r1, ← pBuckets pBucketMem bk1, ← pNat l1⟩
+    let b : Equals.CuckooMem := ⟨← pNat n2, ← pNat b2, ← pNat f2, ← pNat r2, ← pBuckets pBucketMem bk2, ← pNat l2⟩
+    let r := showEq (Equals.CuckooMem.equals a b); pure (verdict (r == res) r)
+  | ["eq.cuckoo.redis", n1, b1, f1, r1, l1, bk1, n2, b2, f2, r2, l2, bk2, res] =>
+    let a : Equals.CuckooRedis := ⟨← pNat n1, ← pNat b1, ← pNat f1, ← pNat r1, ← pNat l1, ← pBuckets pRBucket bk1⟩
+    let b : Equals.CuckooRedis := ⟨← pNat n2, ← pNat b2, ← pNat f2, ← pNat r2, ← pNat l2, ← pBuckets pRBucket bk2⟩
+    let r := showEq (a.equals b); pure (verdict (r == res) r)
+  | ["eq.cms.mem", r1, c1, m1, r2, c2, m2, res] =>
+    let r := showEq (Equals.CMSMem.equals ⟨← pNat r1, ← pNat c1, ← pMatrix m1⟩ ⟨← pNat r2, ← pNat c2, ← pMatrix m2⟩)
+    pure (verdict (r == res) r)
+  | ["eq.cms.redis", r1, c1, m1, r2, c2, m2, res] =>
+    let r := showEq (Equals.CMSRedis.equals ⟨← pNat r1, ← pNat c1, ← pMatrix m1⟩ ⟨← pNat r2, ← pNat c2, ← pMatrix m2⟩)
+    pure (verdict (r == res) r)
+  | ["eq.hll.mem", m1, r1, m2, r2, res] =>
+    let r := showEq (Equals.HLLMem.equals ⟨← pNat m1, ← pNatList r1⟩ ⟨← pNat m2, ← pNatList r2⟩)
+    pure (verdict (r == res) r)
+  | ["eq.hll.redis", m1, r1, m2, r2, res] =>
+    let r := showEq (Equals.HLLRedis.equals ⟨← pNat m1, ← pNatList r1⟩ ⟨← pNat m2, ← pNatList r2⟩)
+    pure (verdict (r == res) r)
+  | ["eq.topk.mem", k1, e1, a1, r1, c1, m1, h1, k2, e2, a2, r2, c2, m2, h2, res] =>
+    let a : Equals.TopKMem := ⟨← pNat k1, ← pNat e1, ← pNat a1, ← pCMSOpt r1 c1 m1, ← pHeap h1⟩
+    let b : Equals.TopKMem := ⟨← pNat k2, ← pNat e2, ← pNat a2, ← pCMSOpt r2 c2 m2, ← pHeap h2⟩
+    let r := showEq (a.equals b); pure (verdict (r == res) r)
+  | ["eq.topk.redis", k1, e1, a1, r1, c1, m1, h1, k2, e2, a2, r2, c2, m2, h2, res] =>
+    let a : Equals.TopKRedis := ⟨← pNat k1, ← pNat e1, ← pNat a1, ← pCMSOpt r1 c1 m1, ← pHeap h1⟩
+    let b : Equals.TopKRedis := ⟨← pNat k2, ← pNat e2, ← pNat a2, ← pCMSOpt r2 c2 m2, ← pHeap h2⟩
+    let r := showEq (a.equals b); pure (verdict (r == res) r)
+  | _ => throw "eq:args"
+
 def handle (toks : List String) : P String := do
   match toks with
   -- Bloom ---------------------------------------------------------------------------------
@@ -292,7 +346,7 @@ def handle (toks : List String) : P String := do
   | "dec.topk" :: hex :: obs => decCheck Codec.decTopK showTopKImg hex obs
   -- Redis-level models -----------------------------------------------------------------------
   | "redis" :: rest => Redis.handle rest
-  | op :: _ => throw s!"unknown-op:{op}"
+  | op :: rest => if op.startsWith "eq." then handleEq (op :: rest) else throw s!"unknown-op:{op}"
   | [] => throw "empty"
 
 partial def loop (h : IO.FS.Stream) (out : IO.FS.Stream) : IO Unit := do
